@@ -1,4 +1,5 @@
 """C03 — exactly one terminal reply per request, to the right client."""
+import vlib
 from props import engine_common
 from props.c01 import FINISH
 
@@ -13,9 +14,58 @@ def run(ctx):
     if ctx.tier == "thorough":
         ctx.leanchecker("Slock.Properties.C03")
     engine_common.run_engine(ctx, ["C03:"], n_quick=3000, n_thorough=60000)
+    if ctx.tier == "thorough":
+        process_level_race(ctx)
     ctx.assumptions.append("replies are produced through the in-memory result callback (MemWaiterServerProtocol); binary/text framing of replies (late-reply filter) is C18/C14 territory")
     ctx.cov["rule"] = ("seeded sequences on 3 connections ending in an adaptive drain; monitor: per (connection, RequestId) exactly one terminal reply after the drain, "
                        "≤ 1 EXPRIED and only under a RequestId that set a hold's terms, reply delivered to the issuing connection")
+
+
+def process_level_race(ctx):
+    """Thorough tier only: real slock-server processes + the real Go client, a Semaphore workload whose Release uses
+    unlock-first (flag 0x01) with zero hold time, so that a release can race the grant reply of the request it releases.
+    Below one shard-mutex critical section M-ENGINE says nothing; this stress is an exploration of exactly that gap.
+    A request that never receives its terminal reply is reported under a C03 signature."""
+    import os, json, subprocess, time
+    from props import c19
+    if not c19.build_binaries(ctx):
+        return
+    root = os.path.join(vlib.BUILD, f"c03-proc-{os.getpid()}")
+    cl = c19.Servers(root) if hasattr(c19, "Servers") else None
+    if cl is None:
+        for name in dir(c19):
+            obj = getattr(c19, name)
+            if isinstance(obj, type) and hasattr(obj, "start_leader"):
+                cl = obj(root)
+                break
+    if cl is None:
+        ctx.assumptions.append("process-level race stress skipped: no cluster helper")
+        return
+    lost = 0
+    ops = 0
+    try:
+        cl.start_leader()
+        for rnd in range(4):
+            outdir = os.path.join(root, f"run{rnd}")
+            os.makedirs(outdir, exist_ok=True)
+            cmd = c19.driver_cmd("semaphore", ctx.seed + rnd, 64, 8, 5, 4, outdir, f"127.0.0.1:{cl.leader_port}", timeout_s=5, extra=["-holdmax", "0"])
+            rc, out, dt = vlib.sh(cmd, timeout=120)
+            rp = os.path.join(outdir, "semaphore.result.json")
+            if os.path.exists(rp):
+                res = json.load(open(rp))
+                ops += int(res.get("ops", 0) or 0)
+                n = int(res.get("no_reply", 0) or 0)
+                lost += n
+                if n:
+                    ctx.add_violation(
+                        f"{n} Acquire request(s) of a Semaphore(5) workload (64 goroutines, 8 connections, zero hold time, Release = unlock-first) never received a terminal reply "
+                        f"({res.get('ops')} operations in this round)",
+                        "C03:reply-lost:unlock-first-races-grant-reply",
+                        {"cmd": cmd, "result": {k: res.get(k) for k in ("ops", "no_reply", "errors", "seed", "note")}})
+    finally:
+        cl.stop()
+    ctx.cov["process_level_race"] = {"rounds": 4, "ops": ops, "requests_without_reply": lost}
+    ctx.cov["evaluations"] += ops
 
 
 def replay(path):
